@@ -127,6 +127,27 @@ def check_d2s(acc, np, sim, D, method, r, a, cq):
             exp = ref_d2s(flat, method, rr, aa)
             if not all(close(x, y) for x, y in zip(Sf, exp)):
                 why = 'differs from the documented formula: expected %r' % (exp,)
+        # (iv-b) derived parameters: "r (and a) are set such that at the quantile the given value is reached"
+        if why is None and cq is not False and ((method in ('exponential', 'gaussian') and r is None) or (method == 'reciprocal' and a is None)):
+            q, target = (cq if isinstance(cq, (tuple, list)) else (cq, 1 - cq))
+            xq = float(np.quantile(D, q))
+            if xq > 0 and 0 < target < 1:
+                got = None
+                if method == 'exponential':
+                    got = math.exp(-xq / float(r_used))
+                elif method == 'gaussian':
+                    got = math.exp(-xq * xq / float(r_used) ** 2)
+                else:
+                    # 1/S = r + a*D is affine in D: read r and the derived a off two distinct data points (or the single one)
+                    pts = sorted(set(zip(flat, Sf)))
+                    if len(pts) >= 2 and pts[0][0] != pts[-1][0]:
+                        (x1, y1), (x2, y2) = pts[0], pts[-1]
+                        aa = (1.0 / y2 - 1.0 / y1) / (x2 - x1)
+                        got = 1.0 / (1.0 / y1 + aa * (xq - x1))
+                    elif pts and pts[0][0] == xq:
+                        got = pts[0][1]
+                if got is not None and not abs(got - target) <= 1e-9:
+                    why = 'at the %r-quantile (distance %r) the similarity is %r, the requested value is %r' % (q, xq, got, target)
         # (v) re-applying with the reported parameter reproduces the output (whenever every derived parameter is reported)
         if why is None and not (method == 'reciprocal' and a is None and cq is not False):
             kw2 = {'method': method, 'r': r_used}
